@@ -190,6 +190,10 @@ def random_cfg(rng, alg=None, family="roomy", nobs=None, maxn=4):
         obs.append({"o": "abc"[i], "est": rng.randint(0, 5), "dur": dur,
                     "demand": rng.randint(1, arrays), "ing": rng.randint(1, max_ingest),
                     "rate": rate, "wf": random_wf(rng, maxn)})
+    if len(obs) > 1 and rng.random() < 0.3:
+        # two pipelines using one and the same workflow
+        import copy as _copy
+        obs[1]["wf"] = _copy.deepcopy(obs[0]["wf"])
     vols = [o["rate"] * o["dur"] for o in obs]
     if family == "roomy":
         hot = (sum(vols) * 10) // 6 + 2 + rng.randint(0, 3)
